@@ -504,9 +504,13 @@ func (fx *FnExec) EqContent(a Content, aoff *Term, b Content, boff *Term, n *Ter
 }
 
 // EvalPure runs fn on args from state st without emitting obligations and merges all returns into one value.
-func (fx *FnExec) EvalPure(fn *ssa.Function, args []Value, st *State) Value {
+// fuel: nesting depth up to which calls of functions of fn's own package are unfolded (deeper ones are opaque).
+func (fx *FnExec) EvalPure(fn *ssa.Function, args []Value, st *State, fuel int, opaque map[string]bool) Value {
 	sub := &FnExec{Cx: fx.Cx, Fn: fn, ordinals: map[ssa.Instruction]map[string]int{}, Trusted: fx.Trusted, Inlined: map[string]bool{}, Applied: map[string]bool{}}
 	sub.mute = true
+	sub.SpecOpaque = func(f *ssa.Function, depth int) bool {
+		return f.Pkg == fn.Pkg && (depth >= fuel || opaque[f.Name()])
+	}
 	s0 := st.Clone()
 	base := len(s0.PC)
 	type res struct {
@@ -558,4 +562,102 @@ func (fx *FnExec) ReadLoc(st *State, o *Object, p Path) (v Value) {
 		return nil
 	}
 	return fx.readPath(st, cur, p, nil)
+}
+
+// ---------------- uninterpreted (opaque) application of spec functions ----------------
+
+func flattenArg(st *State, v Value, out *[]*Term) {
+	switch x := v.(type) {
+	case Scalar:
+		*out = append(*out, x.T)
+	case ErrV:
+		*out = append(*out, x.Code)
+	case StructV:
+		for _, f := range x.F {
+			flattenArg(st, f, out)
+		}
+	case ArrS:
+		for _, e := range x.Elems {
+			flattenArg(st, e, out)
+		}
+	case ArrV:
+		if cv, ok := x.C.(CVec); ok {
+			*out = append(*out, cv.E...)
+			return
+		}
+		*out = append(*out, contentArray(x.C), x.Len)
+	case SliceV:
+		var c Content = CZero{8}
+		if x.Obj != nil {
+			if a, ok := st.Heap[x.Obj].(ArrV); ok {
+				c = a.C
+			}
+		}
+		*out = append(*out, contentArray(c), x.Off, x.Len)
+	case StrV:
+		*out = append(*out, contentArray(x.C), x.Off, x.Len)
+	default:
+		panic(Unsupported{fmt.Sprintf("argument of %T to an uninterpreted spec function", v)})
+	}
+}
+
+// contentArray gives an SMT array term for a content (only symbolic arrays and constant zero are supported).
+func contentArray(c Content) *Term {
+	switch x := c.(type) {
+	case CSym:
+		return x.A
+	case CZero:
+		return ConstArr(Arr(64, x.W), BVC(x.W, 0))
+	case *CStore:
+		return Store(contentArray(x.B), x.I, x.V)
+	}
+	panic(Unsupported{fmt.Sprintf("content %T as argument of an uninterpreted spec function", c)})
+}
+
+func opaqueResult(name string, t types.Type, args []*Term) Value {
+	switch u := t.Underlying().(type) {
+	case *types.Basic:
+		if IsBool(t) {
+			return Scalar{App(name, Bool, args...)}
+		}
+		if w, ok := IsByteLike(t); ok {
+			return Scalar{App(name, BV(w), args...)}
+		}
+	case *types.Array:
+		n := int(u.Len())
+		if w, ok := IsByteLike(u.Elem()); ok && n <= vecMax {
+			e := make([]*Term, n)
+			for i := range e {
+				e[i] = App(fmt.Sprintf("%s#%d", name, i), BV(w), args...)
+			}
+			return ArrV{EW: w, Len: BV64(uint64(n)), C: CVec{E: e, W: w}}
+		}
+	case *types.Struct:
+		f := make([]Value, u.NumFields())
+		for i := range f {
+			f[i] = opaqueResult(name+"."+u.Field(i).Name(), u.Field(i).Type(), args)
+		}
+		return StructV{f}
+	}
+	panic(Unsupported{"result type " + t.String() + " of an uninterpreted spec function"})
+}
+
+// OpaqueApply returns f(args) as applications of uninterpreted functions named after f.
+func (fx *FnExec) OpaqueApply(f *ssa.Function, args []Value) Value {
+	return fx.OpaqueApplySt(nil, f, args)
+}
+
+func (fx *FnExec) OpaqueApplySt(st *State, f *ssa.Function, args []Value) Value {
+	var flat []*Term
+	if st == nil {
+		st = &State{Heap: map[*Object]Value{}}
+	}
+	for _, a := range args {
+		flattenArg(st, a, &flat)
+	}
+	res := f.Signature.Results()
+	if res.Len() != 1 {
+		panic(Unsupported{"uninterpreted spec function must have one result: " + f.String()})
+	}
+	return opaqueResult("spec."+f.Name(), res.At(0).Type(), flat)
 }
